@@ -1160,6 +1160,52 @@ def _float_dtype(call):
         (dt is not None and norm(dt) in ('np.float64', 'float', 'np.float32', 'numpy.float64', "'f8'"))
 
 
+def check_point_pairs(prog, rep, pub):
+    """A1-pair: wherever the wrapper reads the surface at a cell `data[r, c]` whose indices come from the caller's end points,
+    row and column come from the SAME end point - the start's row with the start's column, the goal's with the goal's (the two
+    blocks are copies of each other; a pasted block with one index not adapted tests a cell that is neither end point).
+    Decided on the wrapper terms: for every 2-D index into the surface, the caller's point parameters mentioned by the row
+    term and by the column term are the same single parameter."""
+    from ..wterm import WT, walk as twalk, key as tkey, show as tshow
+    w = WT(prog)
+    try:
+        ret = w.run(pub)
+    except Exception:      # noqa - no terms, no verdict
+        rep.add('A1-pair', pub, ENTRY, 'cells of the surface read by the wrapper', pub.node.lineno, None, 'wrapper terms not available')
+        return
+    points = [p_ for p_ in pub.params if p_ in ('start', 'goal')]
+    if len(points) != 2:
+        pts = [p_ for p_ in pub.params[1:3]]
+        points = pts
+    terms = list(w.env.values()) + ([ret] if ret is not None else [])
+    for c_ in w.calls:
+        terms.extend(c_.args)
+        kws = c_.kwargs.items() if isinstance(c_.kwargs, dict) else c_.kwargs
+        terms.extend(v_ for _, v_ in kws)
+        if isinstance(c_.result, tuple):
+            terms.append(c_.result)
+        for g_ in c_.guards:
+            terms.append(g_)
+    seen, bad, n = set(), [], 0
+    for t in terms:
+        for x in twalk(t):
+            if isinstance(x, tuple) and len(x) == 3 and x[0] == 'index' and isinstance(x[2], tuple) and x[2][:1] == ('tuple',) and \
+                    len(x[2][1]) == 2 and repr(x) not in seen:
+                seen.add(repr(x))
+                r_, c2_ = x[2][1]
+                # (inside arithmetic a sub-term is an atom named by its text)
+                pr = [p_ for p_ in points if "('param', '%s')" % p_ in tkey(r_)]
+                pc = [p_ for p_ in points if "('param', '%s')" % p_ in tkey(c2_)]
+                if not pr and not pc:
+                    continue
+                n += 1
+                if len(pr) != 1 or pr != pc:
+                    bad.append('row from %s, column from %s in %s' % (pr or 'no point', pc or 'no point', tshow(x, 100)))
+    rep.add('A1-pair', pub, ENTRY, 'cells of the surface read at an end point: %d index pairs' % n, pub.node.lineno,
+            (not bad) if n else None,
+            'row and column of a cell the wrapper tests come from the same end point: ' + '; '.join(bad[:2]))
+
+
 def check(prog, rep):
     m = prog.module('pathfinding')
     pub = m.funcs.get('a_star_search')
@@ -1173,6 +1219,8 @@ def check(prog, rep):
     from ..sharedrules import check_values_keep_dtype
     check_values_keep_dtype(prog, rep, 'A5-dtype', pub, ENTRY)
     rep.floor('A5-dtype', 1)
+    check_point_pairs(prog, rep, pub)
+    rep.floor('A1-pair', 1)
     # the search kernel: the jit function the wrapper calls that contains a while loop
     kc = None
     kscope = pub
